@@ -407,6 +407,26 @@ def _counted_loops(prog: Program, run: Run) -> None:
     if n < 2:
         run.error(R, f"only {n} counted decoder loops found (expected DynamicLengthField and "
                   "StaticField)")
+    # the END-OF-PDU field repeats its item while ANY byte is left: an incomplete last item must
+    # reach the item decoder (which raises), not be dropped by a loop test that stops earlier
+    from .common import resolve_locals
+    from ..exprnorm import norm_test
+    f = prog.func("EndOfPduField.decode_from_pdu")
+    ws = [w for w in walk_no_nested(f.node) if isinstance(w, ast.While)]
+    st = f.params()[1]
+    want = norm_test(ast.parse(f"{st}.cursor_byte_position < len({st}.coded_message)",
+                               mode="eval").body)
+    if len(ws) == 1 and norm_test(resolve_locals(f.node, ws[0].test)) == want:
+        run.ok(R, f.qual, "items are decoded while any byte is left", f"{f.module.rel}:"
+               f"{ws[0].lineno}")
+    elif len(ws) == 1:
+        run.violation(R, f.qual, "end-of-pdu-loop-condition",
+                      f"the item loop runs while `{ast.unparse(ws[0].test)}`, not while any byte "
+                      "is left: a PDU that ends in the middle of an item is accepted with the "
+                      "incomplete item dropped instead of being rejected with a DecodeError",
+                      f"{f.module.rel}:{ws[0].lineno}", stmt_key(ws[0]))
+    else:
+        run.error(R, "EndOfPduField.decode_from_pdu: item loop not found")
 
 
 # ----------------------------------------------------------------- handlers
